@@ -49,6 +49,15 @@ class RINGToken(object):
         else:
             return eq(self.name, other)
 
+    def __eq__(self, other):
+        return self.__cmp__(other)
+
+    def __ne__(self, other):
+        return not self.__cmp__(other)
+
+    def __hash__(self):
+        return hash(self.name)
+
     def __str__(self):
         return self.name
 
